@@ -189,6 +189,22 @@ impl Property for C14 {
                     return fail(srv, &root, "c14|response-uri-names-no-file", format!("symbol {:?} points at {:?}", name, u));
                 }
             }
+            // the same through didSave (with the text included)
+            let saved_title = format!("Saved title {}", i);
+            srv.notify("textDocument/didSave", json!({"textDocument": {"uri": uri}, "text": format!("# {}\n\nsaved body\n", saved_title)}));
+            let after_save = match symbols(&mut srv) {
+                Ok(s) => s,
+                Err(a) => return fail(srv, &root, "c14|no-answer", format!("{:?}", a)),
+            };
+            let with_saved = after_save.iter().filter(|(n, _)| ends(n, &saved_title)).count();
+            if with_saved != 1 || after_save.len() != all_files.len() || after_save.iter().any(|(n, _)| ends(n, &new_title)) {
+                return fail(
+                    srv,
+                    &root,
+                    "c14|save-hit-another-note",
+                    format!("after didSave of {:?} through {}: {} notes (expected {}), saved title listed {} time(s): {:?}", case.files[i], uri, after_save.len(), all_files.len(), with_saved, after_save),
+                );
+            }
             // the link from the index note reaches it: definition on line 2 + 2*i, inside the link
             let index_uri = Url::from_file_path(&index_path).unwrap();
             let d = srv.request("textDocument/definition", json!({"textDocument": {"uri": index_uri}, "position": {"line": 2 + 2 * i, "character": 2}}));
